@@ -216,7 +216,8 @@ def run(ctx):
         r3.ok("MultiReceiver::cleanup removes expired sessions", "", rs[0].loc)
     else:
         r3.violation("MultiReceiver::cleanup removes expired sessions", "", loc(mc.sp))
-    calls_inner = [s for s in call_sites(mc, lambda pp, c: pp == RC + "::cleanup")]
+    # explicit loop over the sessions, or `values_mut().for_each(|r| r.cleanup(now))`
+    calls_inner = [s_ for bb_, how_, s_ in foreach_sites(prog, mc, r"^self\.alc_receiver\b", lambda pp: pp == RC + "::cleanup")]
     if calls_inner:
         r3.ok("MultiReceiver::cleanup runs Receiver::cleanup on every session", "", calls_inner[0].loc)
     else:
@@ -330,20 +331,17 @@ def fdt_retain_rule(ctx, r3, reach=None):
         from .. import polarity
         cf = prog.funcs[clos[0]]
         ctx.analysed(cf.path)
-        t = polarity.Table(cf, name_sign={"recv": r"FDTState::Receiving", "comp": r"FDTState::Complete", "err": r"FDTState::Error", "exp": r"FDTState::Expired"},
+        # the instance state is an enum slot: `state == FDTState::V` and `match fdt.state() { V => .. }` are the same test
+        t = polarity.Table(cf, name_enum={"state": (r"FdtReceiver::state\(|^state(~\d+)?$", ("Receiving", "Complete", "Error", "Expired"))},
                            name_bool={"has_timeout": r"object_timeout\)? is Some$", "timed_out": r"FdtReceiver::is_timeout"})
         found = t.labels_found()
-        if not ({"recv", "comp", "err", "exp"} & found):
+        if "state" not in found:
             r3.violation(key, "the retain predicate of cleanup_fdt does not look at the instance's state (conditions: %s ; %s)" % (
                 [polarity.show_key(k) for k in t.seen_sign][:5], list(t.seen_bool)[:5]), s.loc)
             continue
         nsc = 0
         for sc in t.scenarios():
-            eqs = [l for l in ("recv", "comp", "err", "exp") if l in sc and sc[l] == 0]
-            if len(eqs) > 1:
-                continue   # a state equals one variant only
-            state = eqs[0] if eqs else "other"
-            # the variants the predicate does not mention are covered by "other"
+            state = {"Receiving": "recv", "Complete": "comp", "Error": "err", "Expired": "exp"}[sc["state"]]
             if state == "recv":
                 exp = {True} if not sc.get("has_timeout", False) else ({False} if sc.get("timed_out", False) else {True})
                 if "has_timeout" not in sc or "timed_out" not in sc:
@@ -353,15 +351,14 @@ def fdt_retain_rule(ctx, r3, reach=None):
             else:
                 exp = {False}
             rets = set(r for r, _ in t.results(sc))
-            k2 = "cleanup_fdt keeps [%s]" % ", ".join("%s=%s" % (k, {-1: "!=", 0: "==", 1: "!="}.get(v, v) if not isinstance(v, bool) else v) for k, v in sorted(sc.items()))
+            k2 = "cleanup_fdt keeps [%s]" % ", ".join("%s=%s" % (k, v) for k, v in sorted(sc.items()))
             nsc += 1
             if exp is None:
                 r3.violation(k2, "an instance still Receiving is kept without a timeout test: FDT instance ids that never complete are kept for ever", s.loc)
             elif rets == exp:
                 r3.ok(k2, "%s" % sorted(rets), s.loc)
             else:
-                what = {"recv": "still Receiving", "comp": "Complete", "err": "in state Error", "exp": "Expired", "other": ("in a state that is neither Receiving nor Complete (Error / Expired)" if "comp" in sc else
-                                  "in state Error (the predicate does not tell it from Complete)")}[state]
+                what = {"recv": "still Receiving", "comp": "Complete", "err": "in state Error", "exp": "Expired"}[state]
                 r3.violation(k2, "an FDT instance %s is %s by cleanup_fdt (expected %s): %s" % (
                     what, "kept" if True in rets else "released", "kept" if True in exp else "released",
                     "failed or expired instances accumulate with traffic and shadow later valid copies of the same instance id" if True in rets and False in exp
@@ -403,11 +400,22 @@ def block_limit_rule(ctx, rule):
                                 "byte quantities, so anything but symbols x symbol length makes the limit wrong by that factor" % txt[:80], loc(f.sp))
     # the comparison and the accumulation use that value
     cmp_ok = False
-    for blk in f.body.blocks:
-        if blk.term.k == "switch":
-            d = show(sl.x.operand(blk.term.discr), 200)
-            if re.search(r"self\.total_allocated_blocks_size \+ %s\) > self\.max_size_allocated" % re.escape(BL), d) or \
-                    re.search(r"self\.max_size_allocated < \(self\.total_allocated_blocks_size \+ %s" % re.escape(BL), d):
+    # a strict comparison max_size_allocated < total_allocated_blocks_size + <block size>, however it is spelled (`a + b > m`, `m < a + b`,
+    # through a helper's parameters, its result kept in a local for `&&`)
+    from .. import polarity
+    for ((a_, t_), bb_) in comparisons(f):
+        if a_[0] not in ("lt", "le"):
+            continue
+        key_, orient_ = polarity.diff_key(a_[1], a_[2])
+        if key_[0] == "const":
+            continue
+        terms = dict(key_[0])
+        names = set(terms)
+        if names == {"self.max_size_allocated", "self.total_allocated_blocks_size", BL} and key_[1] == 0 and \
+                terms["self.total_allocated_blocks_size"] == terms[BL] == -terms["self.max_size_allocated"]:
+            # (lhs - rhs) = orient * key ; the test must be `max < total + BL` (lt, true) or its negation `total + BL <= max` (le, true)
+            d_max = orient_ * terms["self.max_size_allocated"]     # coefficient of max in (lhs - rhs)
+            if (a_[0] == "lt" and d_max > 0) or (a_[0] == "le" and d_max < 0):
                 cmp_ok = True
     if cmp_ok:
         rule.ok("push_to_block2 limit test", "total_allocated_blocks_size + block_length > max_size_allocated", loc(f.sp))
